@@ -175,7 +175,27 @@ def check(tier, seed):
                 want = (0, m, 0) if name == 'save' else (m, 0, m)
                 if (fr.f.clearMask, fr.f.saveMask, fr.f.loadMask) != want:
                     res.violation(f'CFG-CFG {name}: masks not as prescribed', {'property': 'C17', 'input': {'helper': name, 'mask': m}, 'result': impl}, f'c17-cfg|{name}')
+        # rate helper on decoded frames that already carry the requested period, with any navRate / timeRef
+        for rate in range(1, 11):
+            for nav in (0, 1, 2, 127, 0xFFFF):
+                pay = (1000 // rate).to_bytes(2, 'little') + nav.to_bytes(2, 'little') + bytes([rng.choice([0, 1, 5]), 0])
+                fr = RT.construct(bytearray(pay))
+                tref = fr.f.timeRef
+                cmd, impl = run_helper(fr, 'rate', (rate,))
+                desc = {'helper': 'set_rate_in_hz', 'rate': rate, 'frame': 'decoded ' + pay.hex()}
+                cases.append(Case('rate-helper', cmd, impl, desc, kind='rate/decoded-same-period'))
+                if fr.f.measRate != 1000 // rate or fr.f.navRate != 1 or fr.f.timeRef != tref:
+                    res.violation('set_rate_in_hz: measRate/navRate/timeRef not as prescribed', {'property': 'C17', 'input': desc, 'result': impl}, f'c17-rate-same|{rate}')
         RS = mt['UbxCfgRstAction']['cls']
+        # reset helpers on frames decoded with EVERY previous resetMode value
+        for mode0 in range(256):
+            for name, want in (('warm', (1, 1)), ('cold', (0xFFFF, 1)), ('start', (0, 9)), ('stop', (0, 8))):
+                fr = RS.construct(bytearray(bytes([rng.getrandbits(8), rng.getrandbits(8), mode0, 0])))
+                cmd, impl = run_helper(fr, name, ())
+                desc = {'helper': name, 'frame': f'decoded, resetMode was {mode0}'}
+                cases.append(Case('rst-helper', cmd, impl, desc, kind='rst/all-previous-modes'))
+                if (fr.f.navBbrMask, fr.f.resetMode) != want:
+                    res.violation(f'CFG-RST {name}: (navBbrMask, resetMode) not as prescribed', {'property': 'C17', 'input': desc, 'result': impl}, f'c17-rst-prev|{name}')
         for name, want in (('warm', (1, 1)), ('cold', (0xFFFF, 1)), ('start', (0, 9)), ('stop', (0, 8))):
             # on a fresh frame, on frames decoded from arbitrary payloads, and after another helper (sequences)
             for base in ['fresh'] + [bytes(rng.getrandbits(8) for _ in range(4)) for _ in range(6)] + ['after-warm', 'after-cold', 'after-stop']:
